@@ -12,7 +12,7 @@ CLAIM = {
     "claimed": True,
     "category": "proof",
     "text": "For EVERY number of knots nr and queries nq (tensors of symbolic length, units any_size[*]), sorted 1-D sample "
-            "positions, y given at construction: (i) the interval search of LinearInterp1D._interp / CubicSpline1D._interp "
+            "positions: (i) the interval search of LinearInterp1D._interp / CubicSpline1D._interp "
             "finds an interval containing each in-range query with all gather indices in range, and both internal evaluation "
             "formulas (more / not more queries than knots) return the linear interpolant, resp. the cubic Hermite polynomial "
             "with end values y_j, y_j+1 and end slopes k_j, k_j+1, on every interval containing the query (hence the sample "
@@ -20,7 +20,9 @@ CLAIM = {
             "(linalg.solve replaced by its contract) make the second derivative continuous at every interior knot and satisfy "
             "the boundary condition - natural: second derivative 0 at both ends; clamped: first derivative 0 at both ends; "
             "not-a-knot: third derivative continuous at the second and last-but-one knot; periodic: first and second derivative "
-            "agree at the two ends - and are the slopes the evaluation uses. BOUNDED in the tensor shapes (all values; reported "
+            "agree at the two ends - and are the slopes the evaluation uses; (iii) with y given at call time instead, _interp computes "
+            "the slopes from the stored solved matrix and the given y, they satisfy the same conditions, and the value equals the one "
+            "obtained with these slopes stored at construction. BOUNDED in the tensor shapes (all values; reported "
             "under bounded_obligations, not counted as proved; 3 to 6 knots, 1 to 7 queries, batch 2): y given at call time or "
             "twice (warning) or never (RuntimeError), samples given in any order, batched y and x, reuse of one object with "
             "different y, every extrapolation mode (nan, constant, callable, bound, mirror, periodic) at exactly the outside "
@@ -408,6 +410,55 @@ def any_size_slope_conditions(c, tag, bc, x, y, n, funcs, periodic_values=True):
                           [eq_f, eq_l] + per, widths=("x", labels), subst=sb)
     A.sum_lemmas(c, (2, 3))
     return K
+
+
+def unit_slopes_any_size_late_y(bc):
+    """y given at call time, EVERY number of knots and queries: the slopes are computed inside _interp from the stored
+    solved matrix; they satisfy the same spline conditions and the value is the Hermite cubic with THOSE slopes"""
+    from pydv import lam
+    from pydv.core import fresh_int
+    from props import anysize as A
+
+    def run():
+        c = ctx()
+        nr, nq = fresh_int("nr"), fresh_int("nq")
+        n = nr.e
+        c.assume(z3.And(n >= 3, nq.e >= 1))
+        x, y, q = lam.sym("x", nr), lam.sym("y", nr), lam.sym("q", nq)
+        tag = "any_size[slopes/%s,y_at_call]" % bc
+        with A.lam_world() as m:
+            with kit.patched(m["i1"], "check_periodic_value", lambda y_: None):
+                ok, obj = kit.call_or_fail(c, tag + ":constructor_does_not_raise", lambda: m["i1"].CubicSpline1D(x, None, bc_type=bc))
+                if not ok:
+                    return
+                c.check(tag + ":no_slopes_are_stored_without_y", not hasattr(obj, "ks"))
+                ok, out = kit.call_or_fail(c, tag + ":evaluation_does_not_raise", lambda: obj._interp(q, y=y))
+        if not ok:
+            return
+        many = c.branch(nq.e > n)
+        tag = tag + ("[more queries than knots]" if many else "[not more queries than knots]")
+        K = any_size_slope_conditions(c, tag, bc, x, y, n, {"x": x.uf, "y": y.uf})
+        if K is None:
+            return
+        # the value depends on slopes only through K (the recorded product of the solved matrix with THIS y)
+        p = z3.Int("p")
+        val = out.fn((p,))
+        others = [r_["f"].name() for r_ in c.ghost.get("lam_sums", []) if not r_["f"].eq(K.decl)]
+        txt = val.sexpr()
+        c.check(tag + ":the_evaluation_uses_the_slopes_of_the_values_given_at_the_call", K.decl.name() in txt and not any(("(%s " % o) in txt for o in others))
+        # ... and is the Hermite cubic with those slopes: the formula obligations of any_size[cspline] apply to any slope vector;
+        # here: identical term when the stored-slope object is fed the same K
+        obj2 = object.__new__(type(obj))
+        obj2.x, obj2.y_is_given, obj2.y = x, True, y
+        obj2.ks = lam.LT((nr,), lambda ix: K[ix[-1]], "real")
+        with A.lam_world() as m:
+            out2 = obj2._interp(q, y=y)
+        s1 = c.ghost.get("lam_searches", [])
+        if len(s1) == 2:
+            v2 = z3.substitute(out2.fn((p,)), (s1[1]["f"](p), s1[0]["f"](p)))
+            c.check(tag + ":same_value_as_with_these_slopes_stored_at_construction", z3.eq(z3.simplify(val), z3.simplify(v2)))
+        c.prove("canary", z3.BoolVal(False), kind="canary")
+    return kit.run_unit("any_size[slopes/%s,y_at_call]" % bc, run)
 
 
 def unit_slopes_any_size(bc):
@@ -800,6 +851,7 @@ def units(tier):
         add("reuse[%s]" % mth, lambda mth=mth: unit_reuse(mth))
     for bc in ("natural", "clamped", "not-a-knot", "periodic"):
         add("any_size[slopes/%s]" % bc, lambda bc=bc: unit_slopes_any_size(bc))
+        add("any_size[slopes/%s,y_at_call]" % bc, lambda bc=bc: unit_slopes_any_size_late_y(bc))
     for bc in ("natural", "clamped", "not-a-knot"):
         add("batched_x[cspline/%s]" % bc, lambda bc=bc: unit_batched_x(bc))
     for mth, mode in (("linear", "nan"), ("linear", "constant"), ("linear", "tensor_constant"), ("linear", "callable"), ("linear", "bound"),
